@@ -29,7 +29,7 @@
                                  the decision / reauthorize / query theorems WITHOUT the per-policy soundness
                                  hypothesis (only Completes, the typed condition annotates the policy, Side). *)
 From Coq Require Import List.
-From Cedar Require Import TPE TPEProofs TPESound TPELink.
+From Cedar Require Import TPE TPEProofs TPESound TPELink Typecheck TypecheckProofs TPETyping.
 Import ListNotations.
 
 Theorem c14_views :
@@ -141,6 +141,18 @@ Theorem c14_query_sound_partial :
            (filter (fun u => name_eqb (uty u) hole) (map fst es)).
 Proof. exact query_sound. Qed.
 Print Assumptions c14_query_sound_partial.
+
+(* towards c14_noerr_from_typing: on the fragment covered by C03's typechecker soundness (literals, variables, &&, ||,
+   !, ==, has / get on the context) a typechecked expression does not error on a request of the environment and
+   yields a value of its type; a Bool-typed one yields a boolean (the `boolish` / no-error premises of Side).
+   PARTIAL: the fragment is C03's, and the derivation of Side for every sub-residual is not assembled. *)
+Theorem c14_noerr_from_typing_partial :
+  forall m sch env q es, env_ok env q ->
+  forall e, in_fragment e = true ->
+  forall cs t cs', caps_hold q es cs -> tc m sch env cs e = Some (t, cs') ->
+  exists v, eval [] q es e = Ok v /\ TypeConforms v t.
+Proof. exact noerr_from_typing. Qed.
+Print Assumptions c14_noerr_from_typing_partial.
 
 (* non-vacuity: a response with a definite Allow, one with no decision, the dropped-operand rule at work *)
 Example c14_example :
